@@ -23,6 +23,12 @@ CHECKS["C09"] = dict(
     technique="Coq proof (lexer spans, regenerated table obligations) + extraction-based correspondence + metamorphic checks",
     design="4/C09")
 
+CHECKS["C11"] = dict(
+    text="Coq theorems about the recursive traversal model: non-editing visitors always get 'keep' (identity), the all-idle visitor's call log is the DFS enter/leave bracket sequence with the stated key/path/#ancestors and depth fuel suffices; QUERY_DOCUMENT_KEYS re-swept against the node classes every run. The real visit()/ParallelVisitor (explicit-stack machine) is tied to the model by correspondence on generated ASTs of all node kinds x scripted visitors (idle/skip/break/remove/replace on enter/leave, root included) x parallel groupings: call logs, result trees, identity, input snapshots, context at every call",
+    note="visit_rec model is specification-shaped; machine-refines-model is by correspondence not proof; parallel projection theorem not proved (checked on impl and against the model); reflection-based dispatch only explored",
+    technique="Coq proof (recursive traversal model) + extraction-based correspondence with scripted visitors",
+    design="4/C11")
+
 NOT_YET = {}
 
 
